@@ -44,6 +44,9 @@ func startServer(file string, cache, preload bool) *updogServer {
 	return startServerBin(os.Getenv("VCHECK_UPDOG_BIN"), nil, file, cache, preload)
 }
 
+// srvExtraArgs are appended to the command line of every server started (set by checks that enumerate flag combinations).
+var srvExtraArgs []string
+
 func startServerBin(bin string, env []string, file string, cache, preload bool) *updogServer {
 	if bin == "" {
 		rt.Harnessf("updog binary not set (VCHECK_UPDOG_BIN / VCHECK_UPDOG_RACE_BIN)")
@@ -54,6 +57,7 @@ func startServerBin(bin string, env []string, file string, cache, preload bool) 
 		if preload {
 			args = append(args, "-p")
 		}
+		args = append(args, srvExtraArgs...)
 		s.cmd = exec.Command(bin, args...)
 		s.cmd.Env = append(os.Environ(), env...)
 		s.cmd.Stderr = s.stderr
